@@ -137,6 +137,50 @@ fn series_oracle(c: &Series) -> Verdict {
     ensure!(k == expected, "series ended after {} items, expected {} (span {} step {} inclusive {})", k, expected, span, c.step, c.inclusive);
     ensure!(lib!(it.next()).is_none(), "iterator yields again after None");
     ensure!(lib!(it.next()).is_none(), "iterator yields again after None (2)");
+    // the same series consumed through the standard iterator adaptors (they must see the same items):
+    // a program of nth(j) calls derived from the case, then count(), last(), skip(), step_by()
+    if expected <= 5_000 {
+        let fresh = || if c.inclusive { TimeSeries::inclusive(start, end, step) } else { TimeSeries::exclusive(start, end, step) };
+        let item = |k: i128| c.start.c + k * c.step;
+        let mut it2 = lib!(fresh());
+        let mut pos: i128 = 0; // index of the next item a plain next() would yield
+        let mut seed = (c.n as u64).wrapping_mul(0x9E37_79B9_7F4A_7C15) ^ (c.r as u64) ^ c.step as u64;
+        for _ in 0..12 {
+            seed = seed.wrapping_mul(6_364_136_223_846_793_005).wrapping_add(1_442_695_040_888_963_407);
+            let j = ((seed >> 33) % 4) as usize;
+            let got = lib!(it2.nth(j));
+            let want_k = pos + j as i128;
+            if want_k < expected {
+                ensure!(matches!(got, Some(e) if count(e.duration) == item(want_k)), "after consuming {} items, nth({}) gives {:?}, want item {}", pos, j, got.map(|e| count(e.duration)), want_k);
+                pos = want_k + 1;
+            } else {
+                ensure!(got.is_none(), "nth({}) past the end gives an item", j);
+                break;
+            }
+        }
+        ensure!(lib!(fresh().count()) as i128 == expected, "count() = {}, want {}", fresh().count(), expected);
+        let last = lib!(fresh().last());
+        ensure!(last.map(|e| count(e.duration)) == if expected > 0 { Some(item(expected - 1)) } else { None }, "last() wrong");
+        let sk = 1 + (seed >> 40) as usize % 3;
+        let v: Vec<i128> = lib!({
+            let mut it = fresh();
+            let _ = it.next();
+            it.skip(sk).step_by(2).take(6).map(|e| count(e.duration)).collect()
+        });
+        let want_v: Vec<i128> = (0..6).map(|i| 1 + sk as i128 + 2 * i).filter(|k| *k < expected).map(item).collect();
+        ensure!(v == want_v, "next(); skip({}).step_by(2) gives {:?}, want {:?}", sk, v, want_v);
+        let fl: Vec<i128> = lib!({
+            let mut out = vec![];
+            for e in fresh() {
+                out.push(count(e.duration));
+                if out.len() > 6 {
+                    break;
+                }
+            }
+            out
+        });
+        ensure!(fl.iter().enumerate().all(|(k, x)| *x == item(k as i128)), "for-loop items differ");
+    }
     let crosses_century = c.start.c.div_euclid(NPC) != (c.start.c + span).div_euclid(NPC);
     let crosses_leap = { let a = to_tai(s1, c.start.c); let b = to_tai(s1, c.start.c + span); leap_entries_ns().iter().any(|(ts, _, _)| a <= *ts + 40 * NS_S && b >= *ts) };
     let class = if c.n == 0 {
